@@ -10,7 +10,7 @@ from vlib.runner import Batch, run_harness
 ID = "C06"
 LEAN_PROPS = [f"FcpptProofs.Props.C06.Trunc_{t}" for t in ("u8", "u16", "u32", "u64", "i8", "i16", "i32", "i64")] + [
     "FcpptProofs.Props.C06.Basic", "FcpptProofs.Props.C06.Arith", "FcpptProofs.Props.C06.Log2", "FcpptProofs.Props.C06.Pow", "FcpptProofs.Props.C06.NextPow",
-    "FcpptProofs.Props.C06.Casts", "FcpptProofs.Props.C06.Div2", "FcpptProofs.Props.C06.CeilNarrow", "FcpptProofs.Props.C06.Interval", "FcpptProofs.Props.C06.Masks"]
+    "FcpptProofs.Props.C06.Casts", "FcpptProofs.Props.C06.Div2", "FcpptProofs.Props.C06.CeilNarrow", "FcpptProofs.Props.C06.Interval", "FcpptProofs.Props.C06.Masks", "FcpptProofs.Props.C06.Enum2"]
 LEAN_EXTRA = ["FcpptModel.Gen.Scalar"]
 HARNESS = {"src": "harness/c06.cpp"}
 TIE = ("TRANSLATION: lean/FcpptModel/Gen/Scalar.lean is regenerated from /repo's headers on every run by tools/cxx2lean.py "
@@ -151,7 +151,7 @@ MASK_C = {"u8": [0, 1, 5, 255], "u16": [0, 256, 65535], "u32": [0, 65536, 429496
 SHIFTED_MASK_C = {"u8": [0, 3, 7], "u16": [0, 8, 15], "u32": [0, 16, 31], "u64": [0, 32, 63]}
 STATIC_DIVIDENDS = {"u32": [0, 1, 2, 3, 6, 7, 8, 65535, 65536, 65537, 2147483648, 4294967294, 4294967295],
                     "u64": [0, 1, 2, 3, 6, 7, 8, 65535, 65536, 65537, 4294967296, 9223372036854775808, 18446744073709551614, 18446744073709551615]}
-ENUM_MAXIMA = {"u8": [0, 2, 254], "u16": [2, 256, 65534], "u32": [2, 69999], "u64": [2, 4999999999]}
+ENUM_MAXIMA = {"u8": [0, 2, 254], "u16": [2, 256, 65534], "u32": [2, 69999], "u64": [2, 4999999999], "i8": [2, 127], "i32": [2, 69999, 2147483647]}
 PROMOTED = {"u8": "i32", "i8": "i32", "u16": "i32", "i16": "i32", "u32": "u32", "i32": "i32", "u64": "u64", "i64": "i64"}
 
 
@@ -163,7 +163,13 @@ def small(t, rng=None, n=0):
     return sorted(v for v in vs if lo(t) <= v <= hi(t))
 
 
-FROM_INT_SIZES = {"u8": [1, 3, 255], "u16": [3, 257, 65535], "u32": [3, 70000], "u64": [3, 5000000000]}
+CANON = {"ll": "i64", "ull": "u64", "ch": "i8", "wc": "i32", "c8": "u8", "c16": "u16", "c32": "u32"}
+NAMED_PAIRS = [("ll", "i32"), ("i32", "ll"), ("ll", "u64"), ("ull", "i64"), ("u64", "ull"), ("i64", "ll"), ("ull", "ll"), ("u8", "ll"),
+               ("ch", "i32"), ("ch", "u8"), ("u8", "ch"), ("i8", "ch"), ("wc", "i64"), ("wc", "u32"), ("u16", "wc"), ("c8", "i16"),
+               ("c16", "i32"), ("c16", "c32"), ("c32", "i64"), ("i16", "c16")]
+FROM_INT_SIZES = {"u8": [1, 3, 255], "u16": [3, 257, 65535], "u32": [3, 70000], "u64": [3, 5000000000],
+                  "i8": [3, 128], "i32": [3, 70000, 2147483648]}      # i8 / i32: enums with a signed underlying type (`int` is the default)
+ENUM_UNDER = UNS + ["i8", "i32"]
 
 
 def batches(rng, tier):
@@ -184,10 +190,15 @@ def batches(rng, tier):
         for s in ("u32", "i32", "u64", "i64"):
             vs = [r.range(lo(s), hi(s)) for _ in range(40)] + [r.range(lo(d) - 300, hi(d) + 300) for _ in range(40)]
             ops.append(f"list1 truncation_check_{d}_{s} {csv(sorted(v for v in vs if lo(s) <= v <= hi(s)))}")
-    yield Batch("truncation_check-random", ops, note="seeded random 32/64-bit sources, half of them near the destination's limits")
+    # integral types that are not the fixed-width typedefs (same representation: the model of the typedef is used)
+    for d, s in NAMED_PAIRS:
+        cs = CANON.get(s, s)
+        f = f"truncation_check_{d}_{s}"
+        ops.append(f"range1 {f} {lo(cs)} {hi(cs)}" if BITS[cs] <= 16 else f"list1 {f} {csv(lattice(cs))}")
+    yield Batch("truncation_check-random", ops, note="seeded random 32/64-bit sources, half of them near the destination's limits; 20 pairs with long long / char / wchar_t / char8_t / char16_t / char32_t (all 8/16-bit values, lattice)")
     # ---- from_int
     ops = []
-    for u in UNS:
+    for u in ENUM_UNDER:
         for v in UNS:
             xs = lattice(v, extra=[s + d for s in FROM_INT_SIZES[u] for d in (-2, -1, 0, 1, 2)] + [256, 257, 258, 65536, 65537, 65538, (1 << 32) + 1, (1 << 32) + 2])
             if BITS[v] <= 16:
@@ -338,7 +349,7 @@ def batches2(rng, tier):
         for a in STATIC_DIVIDENDS[t]:
             for b in (1, 2, 3, 7, 65536, hi(t) - 1, hi(t)):
                 ops.append(f"static2 ceil_div_static_{t} {a} {b}")
-    ops += [f"enumsize {u} {m}" for u in UNS for m in ENUM_MAXIMA[u]]
+    ops += [f"enumsize {u} {m}" for u in ENUM_MAXIMA for m in ENUM_MAXIMA[u]]
     yield Batch("compile-time", ops, exhaustive=True, note="mask_c / shifted_mask_c instantiations, ceil_div_static against the run-time ceil_div, enum_::size of the harness enums")
     # ---- one object in every parameter (the functions take references)
     ops = []
@@ -419,6 +430,8 @@ def spec(f, t, args):
         q = tdiv(a, b)
         return ("some %d" % q) if inr(c, q) else None
     if f == "interval_distance":
+        if t in ("i32", "i64") and any(not lo(t) <= x - y <= hi(t) for x in args for y in args):
+            return "guard"      # the harness does not call the function there
         return interval_spec(t, *args)
     if f == "mask_c":
         return str(t[1])
@@ -468,6 +481,9 @@ def spec(f, t, args):
 
 def parse_name(name):
     import re
+    m = re.fullmatch(r"truncation_check_([a-z0-9]+)_([a-z0-9]+)", name)
+    if m and (m.group(1) in CANON or m.group(2) in CANON):
+        return "truncation_check", (CANON.get(m.group(1), m.group(1)), CANON.get(m.group(2), m.group(2)))
     for f in ("truncation_check", "from_int", "size", "safe_numeric"):
         m = re.fullmatch(f + r"_([ui]\d+)_([ui]\d+)", name)
         if m:
@@ -495,7 +511,7 @@ def search(binp, rng, tier):
         for s in ALL:
             vs = range(lo(s), hi(s) + 1) if BITS[s] == 8 else lattice(s) + [rng.range(lo(s), hi(s)) for _ in range(30)]
             ops += [f"call truncation_check_{d}_{s} {v}" for v in vs]
-    for u in UNS:
+    for u in ENUM_UNDER:
         for v in UNS:
             for s in FROM_INT_SIZES[u]:
                 ops += [f"call from_int_{u}_{v} {x} {s}" for x in lattice(v, extra=[s - 1, s, s + 1, 256, 257, 65536, 65537]) if x >= 0]
